@@ -52,6 +52,8 @@ structure CopyOk (g g' : Graph) (W Wx W' : World) (seg c : Segment) : Prop where
   closed : ∀ s k q, g.next ≤ s → g'.inputOf s k = some q → g.next ≤ q.node
   /-- the copy of the head reaches the copy of the tail -/
   reach : Reach g' c.head c.tail
+  /-- the copy of the head is the only new hole -/
+  notOpen : ∀ n, g.next ≤ n → W'.live n → n ≠ c.head → ¬ g'.isOpen n
 
 theorem copySegment_spec {g : Graph} {W Wx : World} (hi : Inv g W) (hw : Wired g) (seg : Segment)
     (hhl : W.live seg.head) (hhk : g.kindOf seg.head = some .future)
@@ -442,7 +444,7 @@ theorem copySegment_spec {g : Graph} {W Wx : World} (hi : Inv g W) (hw : Wired g
   obtain ⟨ct', hct', hrt⟩ := hreach _ htail Reach.refl
   have ect : ct' = ct := by rw [hct] at hct'; cases hct'; rfl
   refine ⟨⟨ch, ct⟩, g2, W', hrun, hinv, hw2, hf2, hag, htr2, (lk_range _ _ hch).1, ?_, head_in, lc _ _ hch, hc _ _ hch,
-    fun i => σc _ _ i hch, (lk_range _ _ hct).1, lc _ _ hct, σc _ _ 0 hct, ?_, ?_, ect ▸ hrt⟩
+    fun i => σc _ _ i hch, (lk_range _ _ hct).1, lc _ _ hct, σc _ _ 0 hct, ?_, ?_, ect ▸ hrt, ?_⟩
   · exact ⟨by rw [lk_kind _ _ hch]; exact hhk, head_in 0⟩
   · intro n hn hl
     rcases hl with ⟨u, hu⟩ | hl
@@ -457,5 +459,32 @@ theorem copySegment_spec {g : Graph} {W Wx : World} (hi : Inv g W) (hw : Wired g
   · intro s k q hs hq
     obtain ⟨u, q0, _, _, hq0', _⟩ := in_new s k q hs hq
     exact (lk_range _ _ hq0').1
+
+  · intro n hn hl hne ho
+    rcases hl with ⟨u, hu⟩ | hl
+    · have huM := lk_M u n hu
+      have ehead : u ≠ seg.head := by
+        intro e; subst e; rw [hch] at hu; cases hu; exact hne rfl
+      have hru := ((memM u).mp huM).2.1
+      have halt := hx u hru ehead
+      unfold AltGood at halt
+      have hk2 := lk_kind u n hu
+      rw [Graph.isOpen, hk2] at ho
+      cases hk : g.kindOf u with
+      | none => simp [hk] at halt
+      | some kd =>
+        cases kd with
+        | future =>
+          simp only [hk] at halt
+          obtain ⟨q, hq, _⟩ := halt
+          obtain ⟨p, hp⟩ := lk_some _ (inputM u 0 q huM ehead hq)
+          have : g2.inputOf n 0 = some ⟨p, q.idx⟩ := by
+            rw [in_copy u n 0 hu, hq]; simp [Option.bind, hp]
+          rw [this] at ho
+          cases ho.2
+        | worker gid a szin szout =>
+          rw [hk] at ho
+          cases ho.1
+    · have := hlt _ hl; omega
 
 end ForML.Compose
